@@ -1679,8 +1679,8 @@ def corpus():
 
 
 def generate(rng: random.Random, tier: str):
-    n_specs, per_spec = (40, 30) if tier == "quick" else (600, 50)
-    out = list(finding_cases(rng, 6 if tier == "quick" else 60))
+    n_specs, per_spec = (400, 50) if tier == "quick" else (4000, 60)
+    out = list(finding_cases(rng, 10 if tier == "quick" else 100))
     for _ in range(n_specs):
         spec = gen_spec(rng)
         for _ in range(per_spec):
@@ -1802,7 +1802,9 @@ PROP = Prop(
         "the order in which a Python set yields the persons left out of a group kind is not observable behaviour: own-groups are renumbered in person order before comparison; ids of axis copies are compared with the model but not judged by the oracle",
         "Variable.end, neutralised variables, max_length strings and memory configuration are not exercised",
     ],
-    partial_theorems=[],
+    partial_theorems=[
+        "C12_spelling_invariant_dict_partial: build_from_dict on documents respelt under TopEq, proved when no top-level key is a singular entity key or a variable name (fully specified shape and the fall-through of repair C12d); the short form and the variables-only form are covered at the level of build_from_entities / one set_input (C12_spelling_invariant) but not lifted through explicit_singular_entities / build_from_variables",
+    ],
     exhaustive_note=("thorough: two persons x every pair of spellings of one month / year / eternity key x 7 membership "
                      "layouts (4 variables); every person variable without set_input x 29 value forms"),
 )
